@@ -474,6 +474,44 @@ def run(ctx):
     ctx.guard("R04.3", "graph/html", lambda: tr.progress_graph(ctx, "R04.3", "html"))
     ctx.guard("R04.3", "graph/xml", lambda: tr.progress_graph(ctx, "R04.3", "xml"))
     ctx.guard("R04.4", "recursion", lambda: r04_4(ctx))
+    def foreign_end_tag_keeps_the_root():
+        """step_foreign, any other end tag: the walk down the stack stops at the bottom element before it compares names, so the
+        stack of open elements is never truncated to nothing (the next insertion would find no current node)"""
+        key, pcs = nfq.cells(ctx, "html_tree_builder", "::step_foreign")
+        k = 0
+        bad = None
+        for pc in nfq.feasible(pcs):
+            for a, args in pc["actions"]:
+                if a == "self.open_elems.truncate":
+                    k += 1
+                    idx = str(args[0])
+                    nonzero = any((not v) and g.split("#")[0] == "%s matches 0" % idx for g, v in pc["guards"].items()) or any(v and g.split("#")[0] == "(0 < %s)" % idx for g, v in pc["guards"].items())
+                    if not nonzero:
+                        bad = "step_foreign truncates the stack of open elements at index %s without having excluded index 0: an end tag naming the root (</html> in an SVG / MathML fragment) empties the stack" % idx[:50]
+        ctx.ob("R04.2", "foreign-end-tag-never-empties-the-stack", bad is None and k >= 1, bad or "%d truncations, each at an index known to be non-zero" % k, "html5ever tree_builder step_foreign")
+
+    ctx.guard("R04.2", "foreign-root", foreign_end_tag_keeps_the_root)
+
+    def name_buf_typestate():
+        """character-reference sub-tokenizers: un-consuming the name takes name_buf out of its Option; nothing that reads the
+        buffer (the name error message, name_buf()) may follow on the same path - it would hit the `expect`"""
+        n = 0
+        for which in ("html", "xml"):
+            T = ctx.tables(which)
+            bad = None
+            for fn, pcs in T["charref"].items():
+                for pc in pcs:
+                    names = [a for a, _ in pc["actions"]]
+                    if "unconsume_name" in names:
+                        n += 1
+                        i = names.index("unconsume_name")
+                        later = [a for a in names[i + 1:] if a in ("emit_name_error", "finish_named", "unconsume_name") or "name_buf" in a]
+                        if later:
+                            bad = "%s: %s after unconsume_name, which has taken the name buffer" % (fn, later[0])
+            ctx.ob("R04.2", "name-buffer-not-used-after-unconsume/%s" % which, bad is None, bad or "nothing reads the name buffer after it was un-consumed", "%s char_ref" % which)
+        ctx.floor("R04.2", "unconsume-name-paths", n, 4)
+
+    ctx.guard("R04.2", "name-buf", name_buf_typestate)
     ctx.guard("R04.5", "consumed", lambda: r04_5(ctx))
     for which in ("html", "xml"):
         ctx.guard("R04.5", "end-queue/" + which, lambda which=which: tr.end_uses_one_queue(ctx, "R04.5", which))
